@@ -42,24 +42,40 @@ type X struct {
 	stopAt int
 }
 
-// Choose returns a free (uncosted) choice in [0,n).
+// Choose returns a free (uncosted) choice in [0,n). Choose, Dev, DevW and Flip are
+// //go:norace and allocation-free: under the scheduler they are called from whichever
+// goroutine holds the token, with hand-offs the race detector cannot see (DESIGN.md E3).
+//
+//go:norace
 func (x *X) Choose(n int, label string) int { return x.choose(n, false, 0) }
 
 // Dev returns a costed choice in [0,n): answer 0 is the default, any other answer is one
 // deviation.
+//
+//go:norace
 func (x *X) Dev(n int, label string) int { return x.choose(n, true, 1) }
 
 // DevW is Dev with an explicit cost for non-default answers.
+//
+//go:norace
 func (x *X) DevW(n int, w int, label string) int { return x.choose(n, true, w) }
 
 // Flip is Dev(2)==1.
+//
+//go:norace
 func (x *X) Flip(label string) bool { return x.choose(2, true, 1) == 1 }
 
+//go:norace
 func (x *X) choose(n int, costed bool, w int) int {
 	if n <= 0 {
 		Fatal("Choose(%d) at point %d", n, len(x.pts))
 	}
 	i := len(x.pts)
+	if i >= cap(x.pts) {
+		// horizon of the preallocated trace: answer the default and stop recording
+		x.Over = true
+		return 0
+	}
 	c := 0
 	if i < len(x.forced) {
 		c = int(x.forced[i])
@@ -67,19 +83,62 @@ func (x *X) choose(n int, costed bool, w int) int {
 			Fatal("replay divergence: forced choice %d out of range %d at point %d (prefix %v)", c, n, i, x.forced)
 		}
 	}
+	x.pts = x.pts[:i+1]
 	if n == 1 {
 		// not a real choice point but keep indices aligned for replay
-		x.pts = append(x.pts, point{n: 1})
+		x.pts[i] = point{n: 1}
 		return 0
 	}
 	if costed && c != 0 {
 		x.devs += w
 	}
-	x.pts = append(x.pts, point{n: int32(n), c: int32(c), costed: costed, w: int32(w)})
+	x.pts[i] = point{n: int32(n), c: int32(c), costed: costed, w: int32(w)}
 	if x.e.MaxPoints > 0 && len(x.pts) > x.e.MaxPoints {
 		x.Over = true
 	}
 	return c
+}
+
+const traceCap = 1 << 15
+
+// Prune is called by scheduler harnesses before a scheduling decision with a digest of the
+// complete state. If the same state was already reached with at least the remaining
+// deviation budget, its futures are covered: the explorer will not branch on any later
+// point of this execution. (Allocation-free, //go:norace: open-addressing table.)
+//
+//go:norace
+func (x *X) Prune(key uint64) {
+	e := x.e
+	if e.seenKeys == nil || x.stopAt >= 0 || len(x.pts) < len(x.forced) {
+		return
+	}
+	rem := int8(e.MaxDev - x.devs)
+	if key == 0 {
+		key = 1
+	}
+	mask := uint64(len(e.seenKeys) - 1)
+	i := key & mask
+	for n := 0; n < 64; n++ {
+		k := e.seenKeys[i]
+		if k == 0 {
+			if e.seenUsed*2 < len(e.seenKeys) {
+				e.seenKeys[i] = key
+				e.seenRem[i] = rem
+				e.seenUsed++
+			}
+			return
+		}
+		if k == key {
+			if e.seenRem[i] >= rem {
+				x.stopAt = len(x.pts)
+				e.Pruned++
+			} else {
+				e.seenRem[i] = rem
+			}
+			return
+		}
+		i = (i + 1) & mask
+	}
 }
 
 // Remaining returns how many more deviations this execution may still take.
@@ -121,6 +180,14 @@ type Explorer struct {
 
 	RecheckEvery int // determinism guard: every k-th owned execution is run twice (0 = 97)
 
+	// StatePruning enables X.Prune (a table of 2^20 state digests; when half full no more
+	// states are remembered, which only reduces pruning).
+	StatePruning bool
+	seenKeys     []uint64
+	seenRem      []int8
+	seenUsed     int
+	Pruned       uint64
+
 	// statistics (owned executions only, except Replicated)
 	Execs       uint64
 	Replicated  uint64
@@ -129,6 +196,18 @@ type Explorer struct {
 	Rechecks    uint64
 	DeadlineHit bool
 	Pending     int // work items left on the stack when a deadline stopped the run
+}
+
+var (
+	pruneKeys []uint64
+	pruneRem  []int8
+)
+
+//go:norace
+func clearKeys(k []uint64) {
+	for i := range k {
+		k[i] = 0
+	}
 }
 
 type item struct {
@@ -160,8 +239,17 @@ func (e *Explorer) Run(body Body) {
 	if e.RecheckEvery == 0 {
 		e.RecheckEvery = 97
 	}
+	if e.StatePruning {
+		if pruneKeys == nil {
+			pruneKeys = make([]uint64, 1<<20)
+			pruneRem = make([]int8, 1<<20)
+		} else {
+			clearKeys(pruneKeys)
+		}
+		e.seenKeys, e.seenRem, e.seenUsed = pruneKeys, pruneRem, 0
+	}
 	stack := []item{{forced: nil, level: 0}}
-	x := &X{e: e}
+	x := &X{e: e, pts: make([]point, 0, traceCap)}
 	for len(stack) > 0 {
 		if !e.Deadline.IsZero() && time.Now().After(e.Deadline) {
 			e.DeadlineHit = true
@@ -239,7 +327,7 @@ func (e *Explorer) recheck(body Body, x *X, d uint64) {
 		ns[i] = p.n
 	}
 	savedForced := x.forced
-	x2 := &X{e: e, forced: full, stopAt: -1}
+	x2 := &X{e: e, forced: full, stopAt: -1, pts: make([]point, 0, traceCap)}
 	d2 := body(x2, false)
 	e.Rechecks++
 	if d2 != d || len(x2.pts) != len(ns) {
@@ -260,6 +348,6 @@ func Replay(choices []int, maxDev int, body Body) uint64 {
 	for i, c := range choices {
 		f[i] = int32(c)
 	}
-	x := &X{e: e, forced: f, stopAt: -1}
+	x := &X{e: e, forced: f, stopAt: -1, pts: make([]point, 0, traceCap)}
 	return body(x, true)
 }
